@@ -107,14 +107,6 @@ theorem amp2_mk {K : Type} {N : ℕ} (U : Matrix (Fin N) (Fin N) GQ) (s t : List
       Fock.prob U s t := by
   simp [SVEntry.amp2, Fock.prob, Nat.cast_mul]
 
-/-! ### removing heralded modes commutes with forgetting the annotations -/
-
-theorem spatialOf_removeModesA (ms : List ℕ) (k : AFock) :
-    spatialOf (removeModesA ms k) = SimSpec.removeModes ms (spatialOf k) := by
-  simp only [spatialOf, removeModesA, SimSpec.removeModes, List.zipIdx_map, List.filter_map,
-    List.map_map]
-  rfl
-
 /-! ### 2×2 inverses -/
 
 theorem det2_mul [CommRing R] (A B : Matrix (Fin 2) (Fin 2) R) :
@@ -206,14 +198,6 @@ theorem keys_spatialDist {N : ℕ} (U : Matrix (Fin N) (Fin N) GQ) (s : List ℕ
   exact (Fock.mem_allStates_iff _ _ _).1 ht
 
 /-! ### selection: helper facts -/
-
-theorem spatialOf_reportedA (c : SimSpec.Cond) (k : AFock) :
-    spatialOf (if c.keepHeralds then k else removeModesA (c.heralds.map (·.1)) k) =
-      SimSpec.reported c (spatialOf k) := by
-  unfold SimSpec.reported
-  cases c.keepHeralds
-  · simp [spatialOf_removeModesA]
-  · simp
 
 theorem polDist_eq {N : ℕ} (U : Matrix (Fin N) (Fin N) GQ) (s : List ℕ) :
     polDist U s = (Fock.allStates N s.sum).map fun t => (mergeState t, Fock.prob U s t) := by
